@@ -1,10 +1,11 @@
 #!/bin/sh
 # Build the overlay virtualenv used by every check (offline, idempotent).
 # /venv (python 3.12) holds the repository's dependencies and is left untouched;
-# /verif/.venv adds crosshair-tool, z3-solver and cvc5 from the local wheelhouse
+# <this dir>/.venv adds crosshair-tool, z3-solver and cvc5 from the local wheelhouse
 # and sees /venv's site-packages through a .pth file.
 set -e
-V=/verif/.venv
+HERE=$(cd "$(dirname "$0")" && pwd)
+V="$HERE/.venv"
 STAMP="$V/.ok"
 if [ -f "$STAMP" ] && "$V/bin/python" -c "import crosshair, z3, sqlalchemy, pydantic" >/dev/null 2>&1; then
     exit 0
